@@ -15,7 +15,12 @@
   fire at exactly their virtual times.
 * Fresh controller per `Net`: new OpenFlowNexus, new `Discovery` (through
   `discovery.launch()`), spanning_tree attached through its own `launch()`,
-  module state of spanning_tree cleared, old timers dropped.
+  module state of spanning_tree cleared, old timers dropped.  Both launchers
+  get the options of the history's configuration (`disc_opts`, `st_opts`:
+  exactly the keyword arguments the POX command line would pass, strings
+  included).  With `--no_flow` discovery does not install its LLDP flow; the
+  operator who sets that option has to get LLDP frames to the controller
+  himself, so the harness installs the equivalent entry (`lldp_entry`).
 
 Nothing here decides anything about the property: the module only drives the
 real code and projects what happened (adjacency, LinkEvents, NO_FLOOD bits,
@@ -58,6 +63,10 @@ FLOOD_FRAME_TYPE = 0x88b5          # experimental ethertype of the test frame
 
 class SimError(Exception):
   """the simulator itself is stuck / inconsistent: machinery, never a verdict"""
+
+
+class LaunchError(Exception):
+  """a component's launcher raised: an observation about the code under test"""
 
 
 class Horizon(Exception):
@@ -152,9 +161,10 @@ class Node(object):
 
 
 class Net(object):
-  def __init__(self, dpids, ports, link_timeout=None):
+  def __init__(self, dpids, ports, disc_opts=None, st_opts=None, lldp_entry=False):
     """dpids: list of 64-bit datapath ids (index i+1 is the spec's switch
-    number); ports: dict dpid -> list of port numbers."""
+    number); ports: dict dpid -> list of port numbers; disc_opts / st_opts:
+    keyword arguments of openflow.discovery.launch / openflow.spanning_tree.launch."""
     self.dpids = list(dpids)
     self._idx = {d: i + 1 for i, d in enumerate(self.dpids)}
     self.frames = []             # (dpid, out port, frame bytes) in flight
@@ -163,14 +173,15 @@ class Net(object):
     self.events = []             # LinkEvents: ["add"/"rem", d1, p1, d2, p2]
     self.flood_rx = None         # per-dpid arrival counter during a flood test
     self.frame_budget = 0
-    self._reset_controller(link_timeout)
+    self.lldp_entry = lldp_entry
+    self._reset_controller(disc_opts or {}, st_opts or {})
     self.nodes = {d: Node(self, d, ports[d]) for d in self.dpids}
 
   def index_of(self, dpid):
     return self._idx[dpid]
 
   # ---------------------------------------------------------- controller
-  def _reset_controller(self, link_timeout):
+  def _reset_controller(self, disc_opts, st_opts):
     sched = core.scheduler
     hub = sched._selectHub
     self.sched, self.hub = sched, hub
@@ -204,12 +215,12 @@ class Net(object):
     stmod._dirty_switches.clear()
     stmod._noflood_by_default = False
     stmod._hold_down = False
-    kw = {}
-    if link_timeout is not None:
-      kw["link_timeout"] = link_timeout
-    discmod.launch(**kw)
-    self.disc = core.components["openflow_discovery"]
-    stmod.launch()
+    try:
+      discmod.launch(**disc_opts)
+      self.disc = core.components["openflow_discovery"]
+      stmod.launch(**st_opts)
+    except Exception as e:
+      raise LaunchError("%s: %s" % (type(e).__name__, str(e)[:200]))
     self.disc.addListenerByName("LinkEvent", self._on_link_event, priority=1000000)
     if not self.disc._eventMixin_handlers.get(discmod.LinkEvent):
       raise SimError("spanning_tree did not attach to discovery")
@@ -324,6 +335,12 @@ class Net(object):
     te = ftmod.TableEntry(priority=1, match=of.ofp_match(),
                           actions=[of.ofp_action_output(port=of.OFPP_FLOOD)])
     n.sw.table.add_entry(te)
+    if self.lldp_entry:
+      # --no_flow: the entry discovery would have installed, put there by the operator (after the handshake,
+      # which clears the table; a probe that arrives earlier is a table miss and goes to the controller too)
+      m = of.ofp_match(dl_type=0x88cc, dl_dst=EthAddr("01:23:20:00:00:01"))
+      n.sw.table.add_entry(ftmod.TableEntry(priority=65000, match=m,
+                                            actions=[of.ofp_action_output(port=of.OFPP_CONTROLLER)]))
 
   def switch_down(self, dpid):
     n = self.nodes[dpid]
